@@ -451,8 +451,12 @@ func (t Table) Lookup(req *http.Request, trace string, pick picker, match matche
 						scheme = "https"
 					}
 				}
+				// host names are case-insensitive and the default port of
+				// the scheme may be spelled out or not: compare the hosts
+				// the same way the routing table matches them
+				isTLS := scheme == "https"
 				if target.RedirectURL.Scheme == scheme &&
-					target.RedirectURL.Host == req.Host &&
+					normalizeHost(target.RedirectURL.Host, isTLS) == normalizeHost(req.Host, isTLS) &&
 					target.RedirectURL.Path == req.URL.Path {
 					log.Print("[INFO] Skipping redirect with same scheme, host and path")
 					// forget the skipped target: when this was the last
